@@ -65,6 +65,8 @@ type Content struct {
 	// DirOrder: the configured directory list (default d0, d1); a directory listed twice takes the
 	// priority of its last position
 	DirOrder []string `json:"directory_list,omitempty"`
+	// Linked: the Spec files of the higher directory are symbolic links to files kept elsewhere
+	Linked bool `json:"higher_directory_holds_symbolic_links,omitempty"`
 }
 
 func (c Content) order() []string {
@@ -103,6 +105,12 @@ func contents(thorough bool) []Content {
 			{"d0", "f0.json", K1, []string{"a", "d"}, mask&1 != 0},
 		}
 		out = append(out, c)
+		if mask == 7 {
+			l := c
+			l.Name += "+d1-files-are-symlinks"
+			l.Linked = true
+			out = append(out, l)
+		}
 		if mask == 5 || mask == 7 {
 			// the low directory listed once more at the end: now it shadows the other one
 			r := c
@@ -166,6 +174,17 @@ func writeContent(root string, c Content) error {
 		data := gen.RenderJSON(raw)
 		if strings.HasSuffix(f.name, ".yaml") {
 			data = gen.RenderYAML(jsonTree(data))
+		}
+		if c.Linked && f.dir == "d1" {
+			store := filepath.Join(root, "store")
+			_ = os.MkdirAll(store, 0o755)
+			if err := os.WriteFile(filepath.Join(store, f.name), data, 0o644); err != nil {
+				return err
+			}
+			if err := os.Symlink(filepath.Join(store, f.name), filepath.Join(dir, f.name)); err != nil {
+				return err
+			}
+			continue
 		}
 		if err := os.WriteFile(filepath.Join(dir, f.name), data, 0o644); err != nil {
 			return err
